@@ -1,3 +1,4 @@
 // Tables regenerated from the running code into lean/SqlgrepModel/Generated/*.lean.
-pub fn write_all(_out: &str) {
+pub fn write_all(out: &str) {
+    crate::tables_prec::write(out);
 }
